@@ -115,7 +115,7 @@ def make_case(rng, site, mode):
     cap = 0
     if mode == "cap":
         cap = site["level"] - 1 if rng.random() < 0.8 else rng.randint(site["level"], 5)
-    return {"cs": site["id"], "mode": mode, "cap": cap, "slots": slots, "decl": decl}
+    return {"cs": site["id"], "mode": mode, "cap": cap, "slots": slots, "decl": decl, "after_panic": rng.random() < 0.1}
 
 
 def gen_cases(rng, sites, reps):
